@@ -86,6 +86,41 @@ func zzC14_stream(custLen, r1, r2, r3 int) {
 	verifReach("stream checked")
 }
 
+// zzC14_checkpoints: stored states are values: a state taken earlier is not changed by later reads or later
+// Store calls, and restoring it resumes at ITS position (two checkpoints r1 and r1+r2 bytes into the stream)
+func zzC14_checkpoints(custLen, r1, r2 int) {
+	seed := nondetBytes(Chacha20SeedLen)
+	cust := nondetBytes(custLen)
+	g, err := NewChacha20PRG(seed, cust)
+	verifAssert(err == nil, "constructor")
+	var cnst [Chacha20CustomizerMaxLen]byte
+	copy(cnst[:], cust)
+	b1 := make([]byte, r1)
+	g.Read(b1)
+	s1 := g.Store()
+	s1copy := append([]byte{}, s1...)
+	b2 := make([]byte, r2)
+	g.Read(b2)
+	s2 := g.Store()
+	assertEqBytes(s1, s1copy, "the first stored state is unchanged by later reads and a later Store")
+	verifAssert(loadLE64(s1[len(s1)-8:]) == uint64(r1), "first checkpoint records r1 bytes")
+	verifAssert(loadLE64(s2[len(s2)-8:]) == uint64(r1+r2), "second checkpoint records r1+r2 bytes")
+	h, err := RestoreChacha20PRG(s1)
+	verifAssert(err == nil, "restore of the first checkpoint")
+	out := make([]byte, r2)
+	h.Read(out)
+	assertEqBytes(out, b2, "the generator restored from the first checkpoint repeats the bytes that followed it")
+	verifReach("checkpoints")
+}
+
+func loadLE64(b []byte) uint64 {
+	v := uint64(0)
+	for i := 7; i >= 0; i-- {
+		v = v<<8 | uint64(b[i])
+	}
+	return v
+}
+
 // zzC14_restore_any: restoring from ANY stored counter c < 2^38-r (symbolic 64-bit, block part not
 // case-split) yields exactly keystream[c : c+r]; the offset inside the block (c mod 64) is forked.
 func zzC14_restore_any(r int) {
@@ -127,4 +162,14 @@ func zzC14_lengths(seedLen, custLen, stateLen int) {
 	verifAssert((err == nil) == (stateLen == 52), "restore accepts exactly 52 bytes")
 	verifAssert((q == nil) == (err != nil), "nil generator iff error")
 	verifReach("lengths checked")
+}
+
+func assertEqBytes(got, want []byte, what string) {
+	verifAssert(len(got) == len(want), what+" (length)")
+	if len(got) != len(want) {
+		return
+	}
+	for i := range got {
+		verifAssert(got[i] == want[i], what)
+	}
 }
